@@ -4,6 +4,7 @@ package props
 
 import (
 	"chgosim/refproto"
+	"context"
 	"fmt"
 	"runtime"
 	"runtime/debug"
@@ -370,4 +371,45 @@ func HangJudge(e *Env, r *Result, conn *simnet.Conn, srv *simnet.Server, serverR
 		r.Harness("simulated system made no progress: %s", info)
 	}
 	e.OnHang, e.OnStandstill = judge, judge
+}
+
+// lateCtx is a context with a deadline whose Done channel is closed by the
+// simulator, at a decision of its choosing at or after the deadline. The timer
+// inside a context.WithTimeout runs in a goroutine of the standard library that
+// the scheduler does not control, so that with two timers due at the same
+// instant (the connection's read deadline, armed from ctx.Deadline(), and the
+// context's own) the context always appears to win. Real timers promise no such
+// order: either may be observed first.
+type lateCtx struct {
+	context.Context
+	dl   time.Time
+	done chan struct{}
+	mu   sync.Mutex
+	err  error
+}
+
+func (c *lateCtx) Deadline() (time.Time, bool) { return c.dl, true }
+func (c *lateCtx) Done() <-chan struct{}       { return c.done }
+func (c *lateCtx) Err() error {
+	c.mu.Lock()
+	defer c.mu.Unlock()
+	return c.err
+}
+func (c *lateCtx) finish(err error) {
+	c.mu.Lock()
+	if c.err == nil {
+		c.err = err
+		close(c.done)
+	}
+	c.mu.Unlock()
+}
+
+// NewLateCtx must be called inside the bubble. The returned cancel function
+// ends the context early (context.Canceled).
+func NewLateCtx(e *Env, d time.Duration) (context.Context, context.CancelFunc) {
+	c := &lateCtx{Context: context.Background(), dl: time.Now().Add(d), done: make(chan struct{})}
+	at := e.Sim.Now() + d
+	e.Sim.AddEnv(&sched.EnvFunc{N: "ctx-deadline", E: func() bool { return c.Err() == nil && e.Sim.Now() >= at }, R: func() { c.finish(context.DeadlineExceeded) }})
+	e.Sim.WakeAfter(d)
+	return c, func() { c.finish(context.Canceled) }
 }
